@@ -20,6 +20,7 @@ def main(argv=None):
     except ModuleNotFoundError:
         print(f"ANALYSIS-ERROR property={prop} no rule module")
         return 2
+    from rules import common
     post = None
     if tier == "thorough":
         def post():
@@ -38,7 +39,7 @@ def main(argv=None):
     rc = core.run_property(
         prop,
         tier,
-        mod.check,
+        lambda repo, col, tier_: common.run_all(prop, repo, col, tier_),
         getattr(mod, "LEVEL", "other"),
         mod.EXPLANATION,
         getattr(mod, "ASSUMPTIONS", []),
